@@ -49,11 +49,28 @@ def loader(ctx):
                     and fd.body.local_name(ins.place.local) == "passengers" or (
                     ins.kind == "assign" and ins.rv_kind() == "use" and ins.ops and ins.ops[0].const_val() == 1
                     and "u32" in fd.body.local_ty(ins.place.local)):
-                for sw, cal, d in controlling_sources(fd, ins):
+                from .C03 import only_loop_controls
+                extra = []
+                for sw, cal, d in only_loop_controls(fd, ins):
                     if d is not None and d.kind == "assign" and d.rv_kind() == "binop" and d.rv["op"] == "Eq" \
                             and any(op.const_val() == 0 for op in d.ops):
                         ok = True
-        ctx.decide(o, ok, "passengers = 1 under the condition passengers == 0", "no `passengers == 0 => 1` substitution found")
+                    elif d is not None and d.kind == "call" and (d.callee or "").split("::")[-1] in ("branch", "next", "is_some", "is_none"):
+                        continue
+                    else:
+                        extra.append(sw)
+                if ok and extra:
+                    # the extra condition must not be a flag that only says whether a warning was printed
+                    flags = [sw for sw in extra if sw.ops and sw.ops[0].place is not None and "bool" in fd.body.local_ty(sw.ops[0].place.local)
+                             and not any(a.startswith(("call:", "decl:", "param:", "field:", "capture:"))
+                                         for a in fd.slice(seed_locals=fd.operand_uses(sw.ops[0]), control=False)["atoms"])]
+                    if flags:
+                        ctx.bad(o, "the substitution at %s also depends on a boolean flag set elsewhere in the loop (%s): only the first segment without "
+                                "passengers is loaded with one passenger, later ones require no vehicle at all" % (ins.line(), flags[0].line()), loc=ins.line())
+                        ok = None
+                        break
+        if ok is not None:
+            ctx.decide(o, ok, "passengers = 1 under the condition passengers == 0", "no `passengers == 0 => 1` substitution found")
     call_arg_provenance(ctx, "R1", J + "::create_maintenance_slots", ND("create_maintenance"), {
         0: ("id", [JF("MaintenanceSlots", "id")], []),
         1: ("location", [JF("MaintenanceSlots", "location")], []),
